@@ -46,6 +46,8 @@ def law_pairs(r, base, obj, caps, base_vals):
           out.append(('map_sort', Node('sort', (('FKeyInt',), rev), [Node('map', (f,), [clone(base)])]),
                       Node('map', (f,), [Node('sort', (('FKeyInt',), rev), [clone(base)])])))
         out.append(('map_cache', Node('cache', (True,), [Node('map', (f,), [clone(base)])]), Node('map', (f,), [Node('cache', (True,), [clone(base)])])))
+        out.append(('map_cache_eager', Node('cache', (False,), [Node('map', (f,), [clone(base)])]), Node('map', (f,), [Node('cache', (False,), [clone(base)])])))
+        out.append(('cache_eager_identity', Node('cache', (False,), [clone(base)]), clone(base)))
         if n >= 1:
             k = r.randint(1, n)
             out.append(('concat_split', Node('concat', (), [Node('shard', (k, i), [clone(base)]) for i in range(k)]), clone(base)))
